@@ -429,10 +429,10 @@ pub fn record_offsets(output: &str) {
         // every fourth robot is parallelogram coupled (J2 drives J3): the links behind a moved joint then do NOT move
         // as one rigid group
         let coupled = tries % 4 == 3;
-        let kin_box: Box<dyn Kinematics> = if coupled {
-            Box::new(rs_opw_kinematics::parallelogram::Parallelogram { robot: std::sync::Arc::new(plain), scaling: 1.0, driven: 1, coupled: 2 })
-        } else { Box::new(plain) };
-        let kin: &dyn Kinematics = kin_box.as_ref();
+        let kin_arc: std::sync::Arc<dyn Kinematics> = if coupled {
+            std::sync::Arc::new(rs_opw_kinematics::parallelogram::Parallelogram { robot: std::sync::Arc::new(plain), scaling: 1.0, driven: 1, coupled: 2 })
+        } else { std::sync::Arc::new(plain) };
+        let kin: &dyn Kinematics = kin_arc.as_ref();
         let lo = |i: usize| if lim_from[i] > lim_to[i] { lim_from[i] - two_pi } else { lim_from[i] };
         let mut initial: Joints = std::array::from_fn(|i| r.gen_range(lo(i) * 0.5..lim_to[i] * 0.5));
         // an initial vector that violates the limits in one joint: only replacing THAT joint can give a legal vector
@@ -474,12 +474,16 @@ pub fn record_offsets(output: &str) {
         let base_pose = Isometry3::new(nalgebra::Vector3::new(0.0, 0.0, -0.4), nalgebra::Vector3::new(0.0, 0.0, 0.3));
         // the scene is laid out for the candidate vector
         let body = scene::build(&scene, kin, &cand, &base_pose, safety_from(&table_json(&table), defaults.0, defaults.1, CheckMode::FirstCollisionOnly));
+        // every second case asks through the robot with shape (kinematics + body), the others ask the body directly
+        let kws = rs_opw_kinematics::kinematics_with_shape::KinematicsWithShape { kinematics: kin_arc.clone(), body };
+        let body = &kws.body;
+        let through_shape = tries % 2 == 0;
         // precondition of the property: the initial vector is collision free (full check, brute force as well)
         if body.collides(&initial, kin) { continue; }
         made += 1;
         let class = format!("{}:{}{}", category(&(a.min(b) as u64, a.max(b) as u64)), if moved(a) != moved(b) { "moved-vs-unmoved" } else if moved(a) { "both-moved" } else { "both-unmoved" }, if coupled { ":coupled" } else { "" });
         for &pool in &pools_for(made, if thorough() { 5 } else { 3 }) {
-            let offered = guarded(|| in_pool(pool, || body.non_colliding_offsets(&initial, &from, &to, kin)));
+            let offered = guarded(|| in_pool(pool, || if through_shape { kws.non_colliding_offsets(&initial, &from, &to) } else { body.non_colliding_offsets(&initial, &from, &to, kin) }));
             let mut cands = Vec::new();
             let mut vecs: Vec<Joints> = Vec::new();
             for jj in 0..6 {
@@ -487,7 +491,7 @@ pub fn record_offsets(output: &str) {
                     let mut v = initial;
                     v[jj] = tv[jj];
                     let coll = body.collides(&v, kin);
-                    let bf = scene::brute(&body, kin, &v);
+                    let bf = scene::brute(body, kin, &v);
                     cands.push(json!({"j": jj, "side": side, "q": au6(&v), "collides": coll, "min_d": bf.iter().map(|x| x.2).min().unwrap_or(0)}));
                     vecs.push(v);
                 }
